@@ -267,6 +267,7 @@ def run (ctx):
   _bitfields(ctx, repo, nx)
   _units(ctx, repo, (lof, nx))
   _text_codec(ctx, repo, lof)
+  _vendor_hook(ctx, repo, lof, nx)
   _lossless_switches(ctx, repo, lof, nx)
 
 def _units (ctx, repo, mods):
@@ -304,6 +305,36 @@ def _units (ctx, repo, mods):
                  % (norm(a), sorted(k_ for k_ in lt[0] if k_ in cur)), (mod, c), 'D3')
   ctx.floor('length/position arithmetic sites', n, 12)
 
+def _vendor_hook (ctx, repo, lof, nx):
+  """the decoder nicira installs for OFPT_VENDOR sees every vendor message, also other vendors' (which may end right after the
+  vendor id: ofp_vendor_generic._MIN_LENGTH bytes).  Before it knows the message is Nicira's it may read that much and no more."""
+  f = nx.funcs.get('_unpack_nx_vendor')
+  if f is None: return
+  ctx.analysed(f)
+  vg = lof.classes.get('ofp_vendor_generic')
+  minlen = repo.try_const(lof, vg.assigns.get('_MIN_LENGTH'), vg, default=None) if vg is not None and vg.assigns.get('_MIN_LENGTH') is not None else None
+  if not isinstance(minlen, int): minlen = 12
+  g = q.cfg_of(f); off = f.params[1]
+  n = 0
+  for node in g.nodes:
+    for c in q.node_calls(node):
+      if call_name(c) not in ('_unpack', 'unpack_from') or len(c.args) < 3: continue
+      fmt = repo.try_const(nx, c.args[0] if call_name(c) == '_unpack' else c.args[0], None, default=None)
+      pos = q.lin_terms(c.args[2])
+      if not isinstance(fmt, str) or pos is None or pos[0] != {off: 1}: continue
+      import struct as _st
+      try: end = pos[1] + _st.calcsize(fmt)
+      except Exception: continue
+      n += 1
+      fs = q.fact_strs(g, node)
+      known = any('NX_VENDOR_ID' in x and ('==' in x) for x in fs)
+      good = end <= minlen or known
+      ctx.ob('R-DOM', f, "`%s` stays inside what every vendor message has until the vendor id is known to be Nicira's" % norm(c)[:50], good,
+             "bytes %d..%d of the message, %s" % (pos[1], end, "vendor id checked" if known else "within the %d-byte generic vendor header" % minlen) if good else
+             "the hook reads bytes %d..%d of every vendor message before it has looked at the vendor id: another vendor's message that ends after its %d-byte header (ofp_vendor_generic with no payload) raises UnderrunError "
+             "instead of being handed to the generic decoder - a message the library can encode can no longer be decoded" % (pos[1], end, minlen), (nx, c), 'D9')
+  ctx.floor('vendor hook reads', n, 2)
+
 def _lossless_switches (ctx, repo, lof, nx):
   """(a) NXM entries are only left out of an encoding when a caller asks for it, and no message-level encoder does: packing
   with omittable=True drops every entry whose mask is all zero, and the decoded match then differs from the encoded one.
@@ -323,6 +354,20 @@ def _lossless_switches (ctx, repo, lof, nx):
           val = repo.try_const(mod, v, cls, default='?')
           ctx.ob('R-AGREE', f, "`%s` does not leave NXM entries out" % norm(c)[:50], val is False, "omittable=False" if val is False else
                  "%s encodes its match with omittable=%s: entries whose mask is all zero are dropped from the wire form (and from match_len), so the message decodes to a different match than was encoded" % (f.name, norm(v)), (mod, c), 'D8')
+  # ... and when the argument is not given at all the answer must be the same: message encoders call match.pack() bare while
+  # their length functions go through len(entry) -> get_length() -> pack(<default>)
+  nd = 0
+  for cls in nx.classes.values():
+    for f in cls.methods.values():
+      if 'omittable' not in f.params: continue
+      a = f.node.args; names = [x.arg for x in a.args]; i_ = names.index('omittable') - (len(names) - len(a.defaults))
+      if i_ < 0: continue
+      nd += 1
+      val = repo.try_const(nx, a.defaults[i_], cls, default='?')
+      ctx.ob('R-AGREE', f, "entries are left out only when the caller asks for it (default of `omittable`)", val is False, "omittable=False by default" if val is False else
+             "%s.%s leaves fully wildcarded entries out by default (omittable=%s) while len() of the match still counts them: nxt_packet_in / nx_flow_mod emit a match shorter than the match_len and header length they announce"
+             % (cls.name, f.name, norm(a.defaults[i_])), (nx, f.node), 'D8')
+  ctx.floor('omittable defaults', nd, 3)
   ctx.stat('omittable arguments examined', n)
   sr = lof.classes.get('ofp_stats_reply')
   if sr is not None:
